@@ -22,8 +22,11 @@ pub enum Ev {
 }
 
 struct State {
-    current: Option<usize>,
+    /// threads allowed to run (normally at most one; more only while one of them is blocked on a
+    /// lock that a parked thread holds)
+    granted: Vec<bool>,
     parked: Vec<bool>,
+    blocked_grants: u64,
     finished: Vec<bool>,
     events: Vec<Ev>,
     decisions: Vec<usize>,
@@ -44,11 +47,9 @@ impl Sched {
         }
         st.events.push(Ev::Site(tid, site.to_string()));
         st.parked[tid] = true;
-        if st.current == Some(tid) {
-            st.current = None;
-        }
+        st.granted[tid] = false;
         self.cv.notify_all();
-        while st.current != Some(tid) && !st.aborted {
+        while !st.granted[tid] && !st.aborted {
             st = self.cv.wait(st).unwrap();
         }
         st.parked[tid] = false;
@@ -57,9 +58,7 @@ impl Sched {
     fn finish(&self, tid: usize) {
         let mut st = self.st.lock().unwrap();
         st.finished[tid] = true;
-        if st.current == Some(tid) {
-            st.current = None;
-        }
+        st.granted[tid] = false;
         self.cv.notify_all();
     }
 
@@ -89,6 +88,8 @@ pub struct Outcome {
     pub decisions: Vec<usize>,
     /// watchdog fired: a thread did not come back to a scheduling point (inconclusive)
     pub stuck: bool,
+    /// how often a second thread was let go because the running one was blocked on a lock
+    pub blocked_grants: u64,
 }
 
 pub enum Policy {
@@ -107,8 +108,9 @@ where
     let n = bodies.len();
     let sched = Arc::new(Sched {
         st: Mutex::new(State {
-            current: None,
+            granted: vec![false; n],
             parked: vec![false; n],
+            blocked_grants: 0,
             finished: vec![false; n],
             events: vec![],
             decisions: vec![],
@@ -146,18 +148,26 @@ where
         let mut step = 0usize;
         loop {
             let mut st = sched.st.lock().unwrap();
-            let deadline = Instant::now() + Duration::from_secs(20);
+            let started = Instant::now();
+            let deadline = started + Duration::from_secs(20);
+            let mut blocked_mode = false;
             loop {
-                let all_settled = st.current.is_none() && (0..n).all(|i| st.finished[i] || st.parked[i]);
-                if all_settled {
+                let running = (0..n).filter(|i| !st.finished[*i] && !st.parked[*i]).count();
+                if running == 0 {
                     break;
                 }
-                let left = deadline.saturating_duration_since(Instant::now());
-                if left.is_zero() {
+                // a running thread that does not come back to a scheduling point is waiting for a
+                // lock held by a parked thread: let another parked thread go on as well
+                let any_parked = (0..n).any(|i| st.parked[i] && !st.finished[i]);
+                if any_parked && started.elapsed() > Duration::from_millis(60) {
+                    blocked_mode = true;
+                    break;
+                }
+                if Instant::now() > deadline {
                     stuck = true;
                     break;
                 }
-                let (g, _) = sched.cv.wait_timeout(st, left.min(Duration::from_millis(200))).unwrap();
+                let (g, _) = sched.cv.wait_timeout(st, Duration::from_millis(20)).unwrap();
                 st = g;
             }
             if stuck {
@@ -165,9 +175,15 @@ where
                 sched.cv.notify_all();
                 break;
             }
-            let ready: Vec<usize> = (0..n).filter(|i| !st.finished[*i]).collect();
+            let ready: Vec<usize> = (0..n).filter(|i| !st.finished[*i] && st.parked[*i]).collect();
             if ready.is_empty() {
-                break;
+                if (0..n).all(|i| st.finished[i]) {
+                    break;
+                }
+                continue;
+            }
+            if blocked_mode {
+                st.blocked_grants += 1;
             }
             let pick = match policy {
                 Policy::Random => ready[rng.below(ready.len())],
@@ -186,13 +202,14 @@ where
                 }
             };
             st.decisions.push(pick);
-            st.current = Some(pick);
+            st.granted[pick] = true;
+            st.parked[pick] = false;
             step += 1;
             sched.cv.notify_all();
         }
     });
     let st = sched.st.lock().unwrap();
-    Outcome { events: st.events.clone(), decisions: st.decisions.clone(), stuck }
+    Outcome { events: st.events.clone(), decisions: st.decisions.clone(), stuck, blocked_grants: st.blocked_grants }
 }
 
 /// A scheduling point placed by the harness itself (before every client operation).
